@@ -193,10 +193,6 @@ SendPreCommit(x) ==
                   x1 == [r.x EXCEPT !.pc[x.me + 1] = s]
               IN Bcast(x1, SigPayload(x1, s, x.me + 1, "PreCommit"))
 
-SendRecoveryRequest(x) ==
-  LET x1 == IF ReqRcvd(x) /\ ~HasAllTx(x) THEN ProcessMissingTx(x) ELSE x
-  IN Bcast(x1, [t |-> "RecoveryRequest", h |-> x.h, v |-> x.v, from |-> MyFrom(x), ts |-> x.env.now])
-
 -----------------------------------------------------------------------------
 \* check.go
 
@@ -261,7 +257,7 @@ Orders(S) == IF S = {} THEN {<<>>} ELSE UNION {{<<e>> \o o : o \in Orders(S \ {e
 \* initializeConsensus -> OnReceive (replay of cached payloads)
 
 RECURSIVE OnReceive(_, _), InitializeConsensus(_, _, _), CheckChangeView(_, _), SendChangeView(_, _),
-          ReplaySeq(_, _), OnRecoveryMessage(_, _)
+          ReplaySeq(_, _), OnRecoveryMessage(_, _), SendRecoveryRequest(_), CreateAndCheckBlock(_), OnAllTransactions(_)
 
 ReplaySeq(S, seq) == IF seq = <<>> THEN S ELSE ReplaySeq(Bind(S, LAMBDA s : OnReceive(s, Head(seq))), Tail(seq))
 ReplayAnyOrder(S, P) == UNION {ReplaySeq(S, o) : o \in Orders(P)}
@@ -316,7 +312,7 @@ SendChangeView(x, reason) ==
   ELSE LET nv == x.v + 1
            x1 == IF W("no_rearm_cv") THEN x ELSE ChangeTimer(x, x.tpb * Pow2(nv + 1))
        IN IF reason = RTimeout /\ CountCommitted(x1) + CountFailed(x1) > F(x1)
-          THEN {SendRecoveryRequest(x1)}
+          THEN SendRecoveryRequest(x1)
           ELSE LET rs == IF ~HasAllTx(x1) /\ reason = RTimeout THEN RTxNotFound ELSE reason
                    r == MakeChangeView(x1, rs)
                IN CheckChangeView(Bcast(Emit(r.x, [k |-> "StopTxFlow"]), r.m), nv)
@@ -327,6 +323,20 @@ CreateAndCheckBlock(x) ==
       ok == r.ok /\ (Range(x.txs) \cap x.env.bad = {})
   IN IF ok \/ W("respond_without_verify") THEN {[x |-> r.x, ok |-> TRUE]}
      ELSE {[x |-> y, ok |-> FALSE] : y \in SendChangeView(r.x, RTxInvalid)}
+
+\* dbft.go onAllTransactions (tail of addTransaction)
+OnAllTransactions(x) ==
+  IF IsPrimary(x) \/ WatchOnly(x) THEN {x}
+  ELSE Bind(CreateAndCheckBlock(x),
+            LAMBDA r : IF ~r.ok THEN {r.x}
+                       ELSE {CheckPrepare(SendPrepareResponse(ExtendTimer(VerifyPreCommitsAgainstPreBlock(r.x), 2)))})
+
+\* send.go sendRecoveryRequest
+SendRecoveryRequest(x) ==
+  LET S == IF ReqRcvd(x) /\ ~HasAllTx(x)
+           THEN (LET y == ProcessMissingTx(x) IN IF HasAllTx(y) /\ ~W("no_answer_after_rerequest") THEN OnAllTransactions(y) ELSE {y})
+           ELSE {x}
+  IN {Bcast(s, [t |-> "RecoveryRequest", h |-> s.h, v |-> s.v, from |-> MyFrom(s), ts |-> s.env.now]) : s \in S}
 
 \* dbft.go onPrepareRequest
 OnPrepareRequest(x, m) ==
@@ -491,11 +501,7 @@ OnTransaction(x, tx) ==
   ELSE IF tx \notin Range(x.missing) THEN {x}
   ELSE LET i == CHOOSE j \in 1..Len(x.missing) : x.missing[j] = tx /\ \A k \in 1..(j - 1) : x.missing[k] # tx
            x1 == [x EXCEPT !.missing = SubSeq(@, 1, i - 1) \o SubSeq(@, i + 1, Len(@)), !.have = @ \cup {tx}]
-       IN IF ~HasAllTx(x1) THEN {x1}
-          ELSE IF IsPrimary(x1) \/ WatchOnly(x1) THEN {x1}
-          ELSE Bind(CreateAndCheckBlock(x1),
-                    LAMBDA r : IF ~r.ok THEN {r.x}
-                               ELSE {CheckPrepare(SendPrepareResponse(ExtendTimer(VerifyPreCommitsAgainstPreBlock(r.x), 2)))})
+       IN IF ~HasAllTx(x1) THEN {x1} ELSE OnAllTransactions(x1)
 
 -----------------------------------------------------------------------------
 \* Public API: call records [call, arg]; x.env must be set by the caller
